@@ -22,20 +22,17 @@ def amount (g l : String) : Res Rat :=
   else if g.utf8ByteSize == 0 && l.utf8ByteSize > 0 then Res.ofOption (parseDecimalApos l)
   else .error
 
-/-- `fmt.Println(len(rec), rec)` -/
-def debugLine (r : Rec) : String := toString r.length ++ " [" ++ joinWith " " r ++ "]\n"
-
-/-- the booking loop: a record with fewer than 7 or more than 8 fields ends it (and is echoed on stdout by a
-left-over `fmt.Println`); running out of records is `io.EOF`, an error.  Result: echoed text, directives, remaining records. -/
-def bookings (acct : Account) (cur : Commodity) : List Rec → Res (String × List Directive × List Rec)
+/-- the booking loop: a record with fewer than 7 or more than 8 fields ends it; running out of records is `io.EOF`, an
+error.  Result: directives, remaining records. -/
+def bookings (acct : Account) (cur : Commodity) : List Rec → Res (List Directive × List Rec)
   | [] => .error
   | r :: rs =>
-    if r.length < 7 || r.length > 8 then .ok (debugLine r, [], rs) else do
+    if r.length < 7 || r.length > 8 then .ok ([], rs) else do
     let d ← Res.ofOption (parseDate layoutDMYdot (fldD r 0))
     let q ← amount (fldD r 2) (fldD r 3)
     let desc := trimSpace (joinWith " " [trimSpace (fldD r 1), trimSpace (fldD r 5), trimSpace (fldD r 4)])
-    let (dbg, ds, rest) ← bookings acct cur rs
-    pure (dbg, mkTx d desc [⟨tbd, acct, cur, q⟩] :: ds, rest)
+    let (ds, rest) ← bookings acct cur rs
+    pure (mkTx d desc [⟨tbd, acct, cur, q⟩] :: ds, rest)
 
 /-- the statement's currency: the `Währung:` value without `=` and quotes, `CHF` when the key is missing -/
 def currencyOf : Option String → Res Commodity
@@ -43,11 +40,11 @@ def currencyOf : Option String → Res Commodity
   | none => .ok "CHF"
 
 /-- `parse`; every remaining record (the disclaimer) must have exactly one field -/
-def run (acct : Account) (recs : List Rec) : Res (String × List Directive) :=
+def run (acct : Account) (recs : List Rec) : Res (List Directive) :=
   (keyValues none recs).bind (fun kv =>
     (currencyOf kv.1).bind (fun c =>
       (bookings acct c kv.2).bind (fun b =>
-        if b.2.2.all (fun r => r.length = 1) then .ok (b.1, b.2.1) else .error)))
+        if b.2.all (fun r => r.length = 1) then .ok b.1 else .error)))
 
 end Postfinance
 
